@@ -135,18 +135,34 @@ def conformance(argv):
     py = R.PY
     n_cmp = 0
     bad = 0
-    for check, idxs in (("C09", range(0, a.n)), ("C12", range(0, a.n)), ("C11", range(0, a.n))):
+    n_crash = 0
+    for check, idxs in (("C09", range(0, a.n)), ("C12", range(0, a.n)), ("C11", range(0, a.n)), ("CRASH", range(0, a.n))):
         for i in idxs:
-            spec = plans.case_spec(check, "quick", 0, i)
-            # drop cache faults / identity edits: fault-free histories only
-            spec["ops"] = [o for o in spec["ops"] if not o["op"].startswith("cache_") and not o.get("fault")]
+            if check == "CRASH":
+                # a world, then real-vs-simulated process death at PRNG-chosen mutation ticks
+                from .seams import stream
+                from .props import c10
+                rng = stream("conformance-crash", i)
+                ops = c10.world_ops(i % len(c10.WORLDS), rng.choice(c10.STARTS), rng)
+                for _ in range(6):
+                    t = rng.choice((0, 1, 2, 3, 30, 44, 45, 80, 84, 85, 86)) if rng.random() < 0.4 else rng.randrange(0, 2600)
+                    ops.append({"op": "scan", "nonce": rng.getrandbits(40), "fault": {"kind": "crash", "tick": t}})
+                    if rng.random() < 0.3:
+                        ops.append({"op": "cache_delete", "what": "dir"})
+                spec = {"property": "C10", "workload": "C06", "seed": i, "swarm": {"set_policy": "insertion", "walk_policy": "sorted"}, "ops": ops}
+            else:
+                spec = plans.case_spec(check, "quick", 0, i)
+                # identity edits / cache faults are harness-side and copied to the twin anyway; faulted
+                # scans are exercised by the CRASH cases
+                spec["ops"] = [o for o in spec["ops"] if not o.get("fault")]
             ex = ConformanceExecutor(spec, py, R.child_env(0))
             ex.run()
+            n_crash += getattr(ex, "n_crash_cmp", 0)
             n_cmp += ex.n_cmp
             bad += len(ex.mismatches)
             for m in ex.mismatches[:3]:
                 print("CONFORMANCE-DIFF %s case %d: %s" % (check, i, m))
-    print("conformance: %d simulated-vs-real comparisons, %d mismatches" % (n_cmp, bad))
+    print("conformance: %d simulated-vs-real comparisons (%d of them real process deaths at a mutation tick), %d mismatches" % (n_cmp, n_crash, bad))
     return 0 if bad == 0 else 1
 
 
@@ -177,6 +193,30 @@ class ConformanceExecutor(Executor):
         self.mismatches = []
         self.n_cmp = 0
 
+    def _twin(self):
+        """A copy of the world under a sibling base directory of the same path length
+        (byte offsets inside the report are then identical)."""
+        import shutil
+        import tempfile
+        w = self.world
+        if getattr(self, "twin", None) is None:
+            self.twin = tempfile.mkdtemp(prefix="clsim-", dir=os.path.dirname(w.base))
+            assert len(self.twin) == len(w.base)
+        twin = self.twin
+        for name in os.listdir(twin):
+            shutil.rmtree(os.path.join(twin, name))
+        shutil.copytree(w.root, os.path.join(twin, "root"), symlinks=True)
+        os.mkdir(os.path.join(twin, "outside"))
+        return twin
+
+    def run(self):
+        import shutil
+        try:
+            return super().run()
+        finally:
+            if getattr(self, "twin", None):
+                shutil.rmtree(self.twin, ignore_errors=True)
+
     def do_scan(self, idx, op):
         import shutil
         from . import oracles as O
@@ -184,12 +224,9 @@ class ConformanceExecutor(Executor):
         if w.git != "none":
             w.git = "none"   # the real subprocess sees a tree that is not a git repository
         # real run first, on a copy including the current cache
-        twin = os.path.join(w.base, "twin")
-        if os.path.exists(twin):
-            shutil.rmtree(twin)
-        os.mkdir(twin)
-        shutil.copytree(w.root, os.path.join(twin, "root"), symlinks=True)
-        os.mkdir(os.path.join(twin, "outside"))
+        twin = self._twin()
+        if op.get("fault"):
+            return self.do_faulted_scan(idx, op, twin)
         cwd, arg = w._spelling(op.get("spelling"))
         rcwd = cwd.replace(w.base, twin, 1)
         rarg = arg.replace(w.base, twin, 1)
@@ -217,16 +254,52 @@ class ConformanceExecutor(Executor):
                 self.mismatches.append("scan op %d: reports differ: %s" % (idx, "; ".join(O.diff_reports(a, b))))
         return obs
 
+    def do_faulted_scan(self, idx, op, twin):
+        """Simulated crash vs real process death at the same mutation tick: the
+        durable state left behind must be the same (names and sizes of everything in
+        the cache directory; contents up to uuid / timestamp / root spelling)."""
+        import re
+        w = self.world
+        cwd, arg = w._spelling(op.get("spelling"))
+        args = {"cmd": "scan", "path": arg.replace(w.base, twin, 1), "exclude": list(w.cli_excludes),
+                "verbose": bool(op.get("verbose")), "fault": dict(op["fault"], kind="crash"), "io_root": twin}
+        rc, out, err = _real(self.py, self.env, cwd.replace(w.base, twin, 1), args)
+        op2 = dict(op, fault=dict(op["fault"], kind="crash"))
+        obs = super().do_scan(idx, op2)
+        self.n_cmp += 1
+        fired = obs.get("fault_fired") is not None
+        if fired != (rc == 137):
+            self.mismatches.append("faulted scan op %d tick %s: simulated fired=%s outcome=%s, real rc=%s %s" % (
+                idx, op["fault"]["tick"], fired, obs["outcome"], rc, err[-300:]))
+            return obs
+        mask = re.compile(rb'"(uuid|timestamp)": "[^"]*"?')
+
+        def listing(root, base):
+            d = os.path.join(root, ".codelimit_cache")
+            out = {}
+            if os.path.isdir(d):
+                for n in sorted(os.listdir(d)):
+                    with open(os.path.join(d, n), "rb") as f:
+                        b = f.read()
+                    # the report's bytes depend on the listing order the real file system chose
+                    # (the simulated scan ran under the 'sorted' policy): sizes must agree, and
+                    # contents are compared for everything except the report
+                    out[n] = (len(b), b"" if n == "codelimit.json" else mask.sub(b"", b.replace(base.encode(), b"<BASE>")))
+            return out
+        a = listing(os.path.join(twin, "root"), twin)
+        b = listing(w.root, w.base)
+        if a != b:
+            self.mismatches.append("faulted scan op %d tick %s: durable state differs: real %s, simulated %s" % (
+                idx, op["fault"]["tick"], {k: v[0] for k, v in a.items()}, {k: v[0] for k, v in b.items()}))
+        else:
+            self.n_crash_cmp = getattr(self, "n_crash_cmp", 0) + (1 if fired else 0)
+        return obs
+
     def do_check(self, idx, op):
         import shutil
         from . import oracles as O
         w = self.world
-        twin = os.path.join(w.base, "twin")
-        if os.path.exists(twin):
-            shutil.rmtree(twin)
-        os.mkdir(twin)
-        shutil.copytree(w.root, os.path.join(twin, "root"), symlinks=True)
-        os.mkdir(os.path.join(twin, "outside"))
+        twin = self._twin()
         obs = super().do_check(idx, op)
         if obs["outcome"] == "skipped":
             return obs
